@@ -24,6 +24,10 @@ def cases():
         C.append(('channel-%s-c0' % pub, dict(kind='channel', down=3, up=1, pub=pub, cancel_after=0, credit='max',
                                               ending='flag' if pub != 'manual' else 'complete')))
         C.append(('channel-%s-c1' % pub, dict(kind='channel', down=3, up=0, pub=pub, cancel_after=1, credit='one', ending='flag')))
+    # cancel() called from inside on_subscribe (allowed by Reactive Streams): before the request frame exists
+    for pub in ('manual', 'gen', 'agen'):
+        C.append(('stream-%s-cancel-in-on_subscribe' % pub, dict(kind='stream', down=3, pub=pub, cancel_after=-1, credit='max', ending='flag' if pub != 'manual' else 'complete')))
+    C.append(('channel-gen-cancel-in-on_subscribe', dict(kind='channel', down=3, up=1, pub='gen', cancel_after=-1, credit='max', ending='flag')))
     # the peer's direction ends with an ERROR that may still be in flight when cancel() is called
     C.append(('channel-manual-error-c0', dict(kind='channel', down=1, up=2, pub='manual', cancel_after=0, credit='max', ending='error')))
     C.append(('channel-manual-error-c1', dict(kind='channel', down=2, up=2, pub='manual', cancel_after=1, credit='one', ending='error')))
